@@ -356,6 +356,22 @@ theorem IsGram.opNorm_eq_sqrt (hG : IsGram B A) (hB : IsDiagIn B b lam) (i0 : ι
     rw [hG.eigen_eq hB i0, Real.sqrt_sq (norm_nonneg _)]
     exact h1
 
+/-- the smallest eigenvalue of the Gram operator bounds `‖A x‖` from below, with equality at its eigenvector -/
+theorem IsGram.sigma_min (hG : IsGram B A) (hB : IsDiagIn B b lam) (i0 : ι) (hmin : ∀ i, lam i0 ≤ lam i) :
+    (∀ x : E, Real.sqrt (lam i0) * ‖x‖ ≤ ‖A x‖) ∧ ‖A (b i0)‖ = Real.sqrt (lam i0) * ‖b i0‖ := by
+  have hl0 : 0 ≤ lam i0 := hG.eigen_nonneg hB i0
+  constructor
+  · intro v
+    have h1 : lam i0 * (‖v‖ * ‖v‖) ≤ ‖A v‖ ^ 2 := by
+      rw [← hG.inner_self v, inner_apply_eq_sum hB, norm_sq_eq_sum_co b, Finset.mul_sum]
+      apply Finset.sum_le_sum
+      intro i _
+      exact mul_le_mul_of_nonneg_right (hmin i) (mul_self_nonneg _)
+    have h2 : (Real.sqrt (lam i0) * ‖v‖) ^ 2 ≤ ‖A v‖ ^ 2 := by
+      rw [mul_pow, Real.sq_sqrt hl0]; linarith [h1, sq ‖v‖]
+    exact (abs_le_of_sq_le_sq' h2 (norm_nonneg _)).2
+  · rw [b.orthonormal.1 i0, mul_one, hG.eigen_eq hB i0, Real.sqrt_sq (norm_nonneg _)]
+
 end gramconv
 
 /-! ### the hypotheses are satisfiable for every spectrum: the operator `Σ lamᵢ ⟨bᵢ,·⟩ bᵢ` -/
